@@ -153,6 +153,11 @@ func c20RandName(rng *rand.Rand) *der.Node {
 		}
 		rdns = append(rdns, rdn)
 	}
+	// empty RDNs (a SET without attributes, `31 00`: the parser keeps them) in front, between and behind the others
+	for k := rng.Intn(4) - 1; k > 0; k-- {
+		at := rng.Intn(len(rdns) + 1)
+		rdns = append(rdns[:at], append([][]gen.ATV{{}}, rdns[at:]...)...)
+	}
 	return gen.NameRDNs(rdns...)
 }
 
